@@ -477,8 +477,8 @@ def defineSymbols (defs : Defs) (nodes : List AstNode) : Defs :=
 def evalSimple (d : Decls) (defs : Defs) (e : Expr) : Except String Value :=
   let env : EvalEnv :=
     { var := fun level path =>
-        if level == 0 && (path.head? == some "$" || path.head? == some "pc") then .ok .unknown
-        else if level == 0 && (match path.head? with | some n => isAsmBuiltinName n | none => false) then
+        if level == 0 && (path == ["$"] || path == ["pc"]) then .ok .unknown
+        else if level == 0 && (match path with | [n] => isAsmBuiltinName n | _ => false) then
           -- built-in functions take precedence over symbols, as in `evalVariable`
           .ok (.asmBuiltin (path.head?.getD ""))
         else match d.symbols.tryGetByName [] level path with
@@ -555,7 +555,7 @@ def resolveIfs (d : Decls) (defs : Defs) (nodes : List AstNode) : Except String 
 def evalCertain (d : Decls) (defs : Defs) (e : Expr) : Except String Value :=
   let env : EvalEnv :=
     { var := fun level path =>
-        if level == 0 && (path.head? == some "$" || path.head? == some "pc") then .error "cannot get address in this context"
+        if level == 0 && (path == ["$"] || path == ["pc"]) then .error "cannot get address in this context"
         else match d.symbols.getByName [] level path with
           | .error m => .error m
           | .ok r =>
@@ -640,7 +640,11 @@ def defineBank (d : Decls) (defs : Defs) (b : BankdefAst) : Except String Bank :
       | some _, some _ => .error "both `addr_end` and `size` defined"
     let outpV ← ev b.outp
     let outp ← match outpV with | some v => (usize v).map some | none => .ok none
-    pure ⟨start, unit, la, addrSize.map (· * unit), outp, b.fill⟩
+    -- the size in bits has to fit a `usize`
+    let sizeBits ← match addrSize with
+      | none => .ok none
+      | some s => if s * unit < USIZE_MAX1 then .ok (some (s * unit)) else .error outOfRange
+    pure ⟨start, unit, la, sizeBits, outp, b.fill⟩
 
 def defineRule (d : Decls) (r : RuleAst) : Except String Rule :=
   let res : Except String (List RPart × Nat × List (String × RParamTy)) := r.pattern.foldl (fun acc p =>
@@ -848,7 +852,11 @@ def checkUnusedDefines (opts : Opts) (d : Decls) : List String :=
     let path := (splitOnChar '.' dv.1.toList).map String.ofList
     match d.symbols.tryGetByName [] 0 path with
     | none => some s!"unused define `{dv.1}`"
-    | some _ => none
+    | some r =>
+      -- a define is used by the constant of that name only: a label or a function of that name does not use it
+      match (d.symbols.decls.getD r default).kind with
+      | .constant => none
+      | _ => some s!"unused define `{dv.1}`"
 
 /-- everything before `match_all`: parsing with inclusion, declarations, `#if`, definitions -/
 def frontEndPre (opts : Opts) (fs : SrcFiles) (roots : List (List Char)) : Except (List String) (Decls × Defs × List AstNode) :=
